@@ -270,6 +270,18 @@ class Model(object):
                                 return self.lookup_method(m, c, node.value.id)
         return None
 
+    def lookup_property(self, module, cls, name):
+        """(Module, ClassDef, FunctionDef) of a ``@property`` getter named ``name`` in the class or its bases."""
+        for m, c in self.mro(module, cls):
+            for node in c.body:
+                if isinstance(node, ast.FunctionDef) and node.name == name:
+                    for d in node.decorator_list:
+                        if (isinstance(d, ast.Name) and d.id in ('property', 'cached_property')) or \
+                                (isinstance(d, ast.Attribute) and d.attr in ('cached_property', 'getter')):
+                            return m, c, node
+                    return None
+        return None
+
     def class_attr(self, module, cls, name):
         for m, c in self.mro(module, cls):
             for node in c.body:
